@@ -119,6 +119,8 @@ type batchOut struct {
 	crashes []result
 }
 
+var klogFatal = regexp.MustCompile(`^F\d{4} [0-9:.]+\s+\d+ ([^\]]+)\] (.*)$`)
+
 var kbFrame = regexp.MustCompile(`(github\.com/kubewharf/kubebrain/[^\s(]+)`)
 
 // classifyDeath turns a dead child's stderr into a pseudo result for the case that was running.
@@ -130,6 +132,27 @@ func classifyDeath(caseIdx int, name string, stderr string, timedOut bool) resul
 		if strings.HasPrefix(l, "panic: ") || strings.HasPrefix(l, "fatal error: ") {
 			msg = l
 			break
+		}
+	}
+	// klog.Fatal: kubebrain ended the process on purpose ("F0925 21:41:38.5 1 file.go:12] message")
+	if msg == "" {
+		for _, l := range lines {
+			if m := klogFatal.FindStringSubmatch(l); m != nil && !strings.Contains(l, "leader lost") {
+				norm := regexp.MustCompile(`"(\\.|[^"\\])*"`).ReplaceAllString(m[2], `"..."`)
+				norm = regexp.MustCompile(`0x[0-9a-f]+|\d+`).ReplaceAllString(norm, "N")
+				if len(norm) > 100 {
+					norm = norm[:100]
+				}
+				file := regexp.MustCompile(`:\d+$`).ReplaceAllString(m[1], "")
+				tail := stderr
+				if len(tail) > 4000 {
+					tail = tail[:4000]
+				}
+				r.Verdict = "violated"
+				r.Violations = []violation{{Sig: "crash klog.Fatal in " + file + ": " + norm, Detail: "the node ended itself with klog.Fatal while serving the case: " + l,
+					Witness: map[string]interface{}{"stderr_head": tail}}}
+				return r
+			}
 		}
 	}
 	if strings.Contains(stderr, "leader lost") && msg == "" {
